@@ -62,7 +62,7 @@ def gen(rng, tier, index):
             kind = rng.choice(["other_prefix", "fewer", "more_before", "more_after", "out_prefix", "prefix_as_suffix", "no_prefix", "empty_levels", "short_raw"])
             ops.append(["foreign", kind, f"{nid};{cid};1;0;{rng.choice([0, 2])};1", rng.choice([0, 1])])
         elif roll < 0.88:
-            ops.append(["set", nid, cid, rng.choice([0, 2, 24]), rng.choice(["1", "0", "x y", "22"]), rng.choice([0, 1])])
+            ops.append(["set", nid, cid, rng.choice([0, 2, 24, 24]), rng.choice(["1", "0", "x y", "22", "28/09/2026", "a/b", "/", "http://x/y?z=1", ""]), rng.choice([0, 1])])
         elif roll < 0.94:
             ops.append(["dup", f"{nid};{cid};1;1;24;dup", 1])
         else:
